@@ -44,13 +44,13 @@ theorem getElem?_swapAt_left (A : List Nat) (i j : Nat) (hij : i ≤ j) (hj : j 
   unfold swapAt
   simp only [List.getElem?_set, List.length_set]
   by_cases h : j = i
-  · subst h; simp [hj, getD_eq_getElem' A j hj]
+  · subst h; simp [hj]
   · have hi : i < A.length := by omega
     simp [h, hi]
 
 theorem take_swapAt (A : List Nat) (i j : Nat) (hij : i ≤ j) (hj : j < A.length) :
     (swapAt A i j).take (i + 1) = A.take i ++ [A.getD j 0] := by
-  rw [List.take_succ, getElem?_swapAt_left A i j hij hj]
+  rw [List.take_add_one, getElem?_swapAt_left A i j hij hj]
   congr 1
   unfold swapAt
   rw [List.take_set_of_le hij, List.take_set_of_le (Nat.le_refl i)]
@@ -140,7 +140,7 @@ theorem firstFreePair_some (G : BipG) (A B : List Nat) (i N ea eb : Nat)
 /-- the pair used in iteration `i`, however it was found (random hit or fallback scan), lies in
 the unused part of both arrays and is not yet an edge -/
 theorem regularPick_ok (tries N : Nat) (G : BipG) (A B : List Nat) (i : Nat) (ds rest : List Draw)
-    (ea eb : Nat) (hi : i < N) (h : regularPick tries N G A B i ds = .ok (some (ea, eb)) rest) :
+    (ea eb : Nat) (_hi : i < N) (h : regularPick tries N G A B i ds = .ok (some (ea, eb)) rest) :
     i ≤ ea ∧ ea < N ∧ i ≤ eb ∧ eb < N ∧ G.hasEdge (A.getD ea 0) (B.getD eb 0) = false := by
   unfold regularPick at h
   rw [bind_ok] at h
